@@ -8,7 +8,7 @@ import mpmath
 import numpy as np
 from mpmath import mpf
 
-from . import common, sexp, translate
+from . import common, gen, sexp, translate
 from .common import Ctx
 
 
@@ -202,3 +202,184 @@ def fmt(x):
         return mpmath.nstr(mpf(x), 17)
     except Exception:
         return str(x)
+
+
+# ---------------------------------------------------------------- building and probing a generated Python module
+class PyBuild:
+    def __init__(self):
+        self.ode = None
+        self.code = None
+        self.mod = None
+        self.funcs = None
+        self.dicts = None
+        self.layout = None
+        self.rm = None
+        self.hp = None
+
+    def hp_mod(self):
+        if self.hp is None:
+            try:
+                self.hp = common.exec_module_hp(self.code)
+            except Exception:
+                self.hp = False
+        return self.hp
+
+
+def build_py(ctx: Ctx, text: str, tag: str, backend: str = "numpy", rm: RefModel | None = None, ode=None,
+             on_codegen_error: str = "violate", **opts):
+    """load with the real gotranx, generate, exec, translate; records violations for failures
+    that the calling property counts as such.  Returns PyBuild or None."""
+    b = PyBuild()
+    if ode is None:
+        try:
+            ode = common.load(text)
+        except Exception as ex:
+            ctx.count(f"rejected/{type(ex).__name__}")
+            return None
+    b.ode = ode
+    if rm is None:
+        rm, err = lean_load(ctx, text, impl_deps(ode))
+        if rm is None:
+            ctx.broke("correspondence", "load-accept-class", f"gotranx accepts, model says {err}\n{text}")
+            return None
+    b.rm = rm
+    if not rm.acyclic:
+        ctx.count("cyclic")
+        return None
+    # a model none of whose points is defined in float64 (a constant that overflows, log of a
+    # negative constant …) is outside the domain of every numeric property
+    if not model_usable(rm, text):
+        ctx.count("models_undefined_everywhere")
+        return None
+    try:
+        b.code = common.py_code(ode, backend=backend, **opts)
+        b.mod = common.exec_module(b.code)
+    except Exception as ex:
+        if on_codegen_error == "skip":
+            ctx.count(f"codegen_failed/{type(ex).__name__}")
+            return None
+        ctx.violate(f"{tag}/{backend}/codegen-exception/{type(ex).__name__}/{construct_of(rm)}",
+                    f"accepted model, but {backend} code generation raised {type(ex).__name__}: {str(ex)[:120]}",
+                    case={"text": text, "opts": _jsonable(opts)}, error=repr(ex))
+        return None
+    b.funcs, b.dicts = translate.py_module(b.code)
+    lay = module_layout(b.dicts)
+    if lay["state"] is None or lay["param"] is None or lay["monitor"] is None:
+        ctx.violate(f"{tag}/{backend}/index-not-bijective", "an index dict is not a bijection onto 0..n-1", case={"text": text})
+        return None
+    lay["missing"] = lay["missing"] or []
+    b.layout = lay
+    return b
+
+
+def model_usable(rm: RefModel, text: str) -> bool:
+    g = gen.GModel(comps=[""])
+    g.states = {k: (None, "") for k in rm.states}
+    g.params = {k: (None, "") for k in rm.params}
+    probe = gen.gen_inputs(random.Random(len(text)), g, 4)
+    for pt in probe:
+        for mv in rm.missing():
+            pt[mv] = 0.5
+    return any(rm.usable(pt, 1) is not None for pt in probe)
+
+
+def construct_of(rm: RefModel) -> str:
+    """which discontinuous / special constructs the derivative expressions use (finding keys)"""
+    ops: dict = {}
+    for d, (s, e) in rm.derivs.items():
+        sexp.ops(e, ops)
+    tags = [k.replace("fn:", "") for k in ("fn:floor", "mod", "fn:abs", "cond", "ccond") if k in ops]
+    return "+".join(tags) or "plain"
+
+
+def _jsonable(opts):
+    out = {}
+    for k, v in opts.items():
+        if isinstance(v, (list, tuple)):
+            out[k] = [getattr(x, "value", x) for x in v]
+        else:
+            out[k] = getattr(v, "value", v)
+    return out
+
+
+def scheme_reference(rm: RefModel, lin: dict, kind: str, delta, stiff=None):
+    """extra assignments (as expression ASTs over the model's names, `dt`) whose values are
+    what the property prescribes for the scheme step of each state:
+      euler : X + dt*dX
+      grl   : X + (|g|>delta ? dX/g*(exp(g*dt)-1) : dt*dX),  g = d(rate)/dX with everything else fixed
+      hybrid: grl for states in `stiff`, euler otherwise.
+    returns (assigns, order, {state: name of its step value})"""
+    assigns = dict(rm.assigns)
+    order = list(rm.order)
+    out = {}
+    dnum = ("num",) + sexp.num_from_text(repr(float(delta))) if delta is not None else None
+    for d, (s, _) in rm.derivs.items():
+        use_rl = kind == "grl" or (kind == "hybrid" and stiff is not None and s in stiff)
+        euler = ("add", ("var", s), ("mul", ("var", "dt"), ("var", d)))
+        if use_rl:
+            g = f"__g_{d}"
+            assigns[g] = lin[d]
+            order.append(g)
+            rl = ("mul", ("div", ("var", d), ("var", g)), ("sub", ("fn", "exp", ("mul", ("var", g), ("var", "dt"))), ("num", 1, 0)))
+            e = ("add", ("var", s), ("cond", ("rel", "gt", ("fn", "abs", ("var", g)), dnum), rl, ("mul", ("var", "dt"), ("var", d))))
+        else:
+            e = euler
+        nm = f"__step_{s}"
+        assigns[nm] = e
+        order.append(nm)
+        out[s] = nm
+    return assigns, order, out
+
+
+def lean_diff(ctx: Ctx, text: str):
+    r = ctx.lean().call({"op": "diff", "text": text})
+    if not r.get("ok"):
+        return None
+    return {d: sexp.parse_sexp(e) for d, s, e in r["lin"]}
+
+
+def usable_ref(assigns, order, base, seed):
+    info = {}
+    exact, spread = sexp.reference(assigns, order, base, seed, info=info)
+    if not info["defined"] or info["unstable"]:
+        return None
+    return exact, spread
+
+
+def call_py(fn, order: str, **kw):
+    """call a generated Python function with its arguments in the given letter order"""
+    args = []
+    for ch in order:
+        args.append({"s": kw.get("states"), "t": kw.get("t"), "p": kw.get("parameters"), "d": kw.get("dt")}[ch])
+    if kw.get("missing") is not None:
+        args.append(kw["missing"])
+    with np.errstate(all="ignore"):
+        return fn(*args)
+
+
+def confirm_values(ctx: Ctx, b: PyBuild, fname: str, order: str, bad, slots, spread, **kw):
+    """re-run the generated function against the 50-digit shim; keep only confirmed disagreements"""
+    hpm = b.hp_mod()
+    confirmed = []
+    outh = None
+    if hpm and hasattr(hpm, fname):
+        conv = lambda a: None if a is None else common.Vec(common.mpf(float(x)) for x in a)  # noqa: E731
+        args = []
+        for ch in order:
+            args.append({"s": conv(kw.get("states")), "t": common.mpf(kw["t"]) if kw.get("t") is not None else None,
+                         "p": conv(kw.get("parameters")), "d": common.mpf(kw["dt"]) if kw.get("dt") is not None else None}[ch])
+        if kw.get("missing") is not None:
+            args.append(conv(kw["missing"]))
+        outh = common.hp_call(getattr(hpm, fname), *args)
+    for (name, got, ref) in bad:
+        c = None
+        if outh is not None:
+            try:
+                c = confirm_hp(outh[slots[name]], ref, spread.get(name, mpf(0)))
+            except Exception:
+                c = None
+        if c is False:
+            ctx.count("ill_conditioned")
+            continue
+        confirmed.append((name, got, ref, c))
+    return confirmed
